@@ -2,32 +2,95 @@ From Coq Require Import List NArith Bool Arith Lia.
 From PV Require Import C12Model C12Proofs C11Model.
 Import ListNotations.
 
-(** symmetry, qualifiers respected (ignoreQualifier = false): for every fuel and every pair of terms *)
-Lemma compat_sym_noq : forall f v t1 t2, compat_tf f v false t1 t2 = compat_tf f v false t2 t1.
+(** symmetry: for every pair of terms *)
+Lemma cmp_sym : forall t1 v t2, cmp v t1 t2 = cmp v t2 t1.
 Proof.
-  induction f as [|f IH]; intros v t1 t2; [reflexivity|].
-  destruct t1 as [k1| | |a|a|r1 ps1|q1 u1|n1|g1], t2 as [k2| | |b|b|r2 ps2|q2 u2|n2|g2]; cbn [compat_tf]; try reflexivity;
-    try apply IH; try apply N.eqb_sym.
-  - (* functions *)
-    rewrite (IH false r1 r2). f_equal.
-    revert ps2. induction ps1 as [|x l1 IHl]; intros [|y l2]; try reflexivity. rewrite (IH v x y), IHl. reflexivity.
-  - (* qualified / qualified *)
-    rewrite (N.eqb_sym q1 q2), (IH v u1 u2). reflexivity.
+  induction t1 using ty_ind'; intros v t2; destruct t2 as [k2| | |b|b|r2 ps2|q2 u2|n2|g2]; cbn [cmp]; try reflexivity;
+    try apply IHt1; try apply N.eqb_sym.
+  - rewrite (IHt1 false r2). f_equal.
+    revert ps2. induction ps as [|x l IHl]; intros [|y l2]; try reflexivity.
+    inversion H as [|? ? Hx Hl]; subst. rewrite (Hx v y), (IHl Hl l2). reflexivity.
+  - rewrite (N.eqb_sym q q2), (IHt1 v u2). reflexivity.
 Qed.
 
-(** reflexivity on clean terms, qualifiers respected *)
-Lemma compat_refl_noq : forall t, clean t = true -> forall f v, size t <= f -> compat_tf f v false t t = true.
+Lemma compat_tf_sym v q t1 t2 : compat_tf v q t1 t2 = compat_tf v q t2 t1.
+Proof. unfold compat_tf. destruct q; apply cmp_sym. Qed.
+
+(** reflexivity on error-free terms *)
+Lemma cmp_refl : forall t, clean t = true -> forall v, cmp v t t = true.
 Proof.
-  induction t using ty_ind'; intros Hc f v Hf; cbn [clean] in Hc; try discriminate; (destruct f as [|f]; [cbn [size] in Hf; pose proof (size_pos TVoid); cbn in *; lia|]); cbn [compat_tf size] in *.
+  induction t using ty_ind'; intros Hc v; cbn [clean] in Hc; try discriminate; cbn [cmp].
   - apply N.eqb_refl.
   - reflexivity.
-  - apply IHt; [exact Hc|lia].
-  - apply IHt; [exact Hc|lia].
-  - apply andb_true_iff in Hc as [Hr Hps]. rewrite IHt by (try exact Hr; lia). cbn.
-    assert (Hsz : forall p, In p ps -> size p <= f) by (intros p Hp; pose proof (in_size_le p ps Hp); lia).
-    clear Hf. induction ps as [|p l IHl]; [reflexivity|].
+  - apply IHt; exact Hc.
+  - apply IHt; exact Hc.
+  - apply andb_true_iff in Hc as [Hr Hps]. rewrite (IHt Hr). cbn.
+    induction ps as [|p l IHl]; [reflexivity|].
     inversion H as [|? ? Hp Hl]; subst. cbn [forallb] in Hps. apply andb_true_iff in Hps as [Cp Cl].
-    rewrite Hp by (try exact Cp; apply Hsz; left; reflexivity). cbn. apply IHl; [exact Hl|exact Cl|intros x Hx; apply Hsz; right; exact Hx].
-  - rewrite N.eqb_refl. cbn. apply IHt; [exact Hc|lia].
+    rewrite (Hp Cp). cbn. apply IHl; assumption.
+  - rewrite N.eqb_refl. cbn. apply IHt; exact Hc.
   - apply N.eqb_refl.
+Qed.
+
+Lemma erase_clean t : clean t = true -> clean (erase t) = true.
+Proof.
+  induction t using ty_ind'; cbn [clean erase]; intros Hc; try discriminate; auto.
+  apply andb_true_iff in Hc as [Hr Hps]. rewrite (IHt Hr). cbn.
+  apply forallb_forall. intros y Hy. apply in_map_iff in Hy as [x [<- Hx]].
+  rewrite Forall_forall in H. rewrite forallb_forall in Hps. apply H; [exact Hx|apply Hps; exact Hx].
+Qed.
+
+Lemma compat_tf_refl v q t : clean t = true -> compat_tf v q t t = true.
+Proof. intros Hc. unfold compat_tf. destruct q; apply cmp_refl; [apply erase_clean|]; exact Hc. Qed.
+
+(* ------------------------------------------------------------------ completeness w.r.t. C11's relations *)
+(** whatever 6.2.7 calls compatible, the checker's relation accepts, with void special-cased or not *)
+Lemma cmp_complete : forall a b, compat_spec a b -> forall v, cmp v a b = true.
+Proof.
+  induction a using ty_ind'; intros b Hc v; inversion Hc; subst; cbn [cmp]; try apply N.eqb_refl; try reflexivity; auto.
+  - (* functions *)
+    match goal with Hr : compat_spec a ?r2, HF : Forall2 compat_spec ps ?l |- _ =>
+      rewrite (IHa _ Hr false); cbn [andb]; clear Hc; revert H; induction HF as [|x y l1 l2 Hxy Hl IHl]; intros HA; [reflexivity|] end.
+    inversion HA as [|? ? Hx HA']; subst. rewrite (Hx _ Hxy v). cbn [andb]. apply IHl. exact HA'.
+  - rewrite N.eqb_refl. cbn [andb]. auto.
+Qed.
+
+(** erasing qualifiers keeps compatible types compatible *)
+Lemma erase_compat : forall a b, compat_spec a b -> compat_spec (erase a) (erase b).
+Proof.
+  induction a using ty_ind'; intros b Hc; inversion Hc; subst; cbn [erase]; try constructor; auto.
+  match goal with HF : Forall2 compat_spec ps ?l |- _ => clear Hc; revert H; induction HF as [|x y l1 l2 Hxy Hl IHl]; intros HA; [constructor|] end.
+  inversion HA as [|? ? Hx HA']; subst. cbn [map]. constructor; [apply Hx; exact Hxy|apply IHl; exact HA'].
+Qed.
+
+Lemma compat_tf_complete a b v q : compat_spec a b -> compat_tf v q a b = true.
+Proof. intros Hc. unfold compat_tf. destruct q; apply cmp_complete; [apply erase_compat|]; exact Hc. Qed.
+
+(** the pointee comparison of assignments ignores qualifiers and treats void as any type: it accepts
+    every pair 6.5.16.1 allows *)
+Lemma erase_unq a : erase (unq a) = erase a.
+Proof. destruct a; reflexivity. Qed.
+Lemma erase_top t : match erase t with TQual _ _ => False | _ => True end.
+Proof. induction t using ty_ind'; cbn [erase]; auto. Qed.
+Lemma cmp_void_l x : clean x = true -> cmp true TVoid (erase x) = true.
+Proof.
+  intros Hc. pose proof (erase_clean x Hc) as Hce. pose proof (erase_top x) as Ht.
+  destruct (erase x); cbn [clean] in Hce; try discriminate; try reflexivity; contradiction.
+Qed.
+Lemma cmp_void_r x : clean x = true -> cmp true (erase x) TVoid = true.
+Proof. intros Hc. rewrite cmp_sym. apply cmp_void_l. exact Hc. Qed.
+
+Lemma assignable_complete : forall l r nc, assignable_spec l r nc -> clean l = true -> clean r = true -> assignable l r nc = true.
+Proof.
+  intros l r nc H. induction H; intros Hl Hr; cbn [clean] in *.
+  - reflexivity.
+  - unfold assignable. cbn. apply N.eqb_refl.
+  - unfold assignable. cbn [strip]. unfold compat_tf. rewrite <- (erase_unq a), <- (erase_unq b). apply cmp_complete. apply erase_compat. assumption.
+  - unfold assignable. cbn [strip]. unfold compat_tf. rewrite <- (erase_unq a), H. cbn [erase]. apply cmp_void_l. exact Hr.
+  - unfold assignable. cbn [strip]. unfold compat_tf. rewrite <- (erase_unq b), H. cbn [erase]. apply cmp_void_r. exact Hl.
+  - reflexivity.
+  - reflexivity.
+  - specialize (IHassignable_spec Hl Hr). unfold assignable in *. cbn [strip] in *. exact IHassignable_spec.
+  - specialize (IHassignable_spec Hl Hr). unfold assignable in *. cbn [strip] in *. exact IHassignable_spec.
+  - specialize (IHassignable_spec Hl Hr). unfold assignable in *. cbn [strip] in *. exact IHassignable_spec.
 Qed.
